@@ -117,13 +117,13 @@ CHECKS = {
  "C18": dict(
    category="model_checking",
    technique="stateless exploration of thread interleavings on the real code under a cooperative scheduler (scheduling point at the entry of every library function that refers to a package-level variable, inserted mechanically in the build overlay), preemption-bounded DFS with replay; plus a deep fingerprint of all shared state before/after every execution and a separate free-running race-detector pass",
-   text="10 programs (slices of the eight C11 extension tables, C10 statement bodies, a mixed program). Quick: 5-row programs, 30 ordered pairs (self, successor, mixed), every schedule with <=1 preemption: 35k schedules, 56M scheduling points. Thorough: 20 programs, all ordered pairs with <=1 preemption and all unordered pairs of 2-row programs with <=2 preemptions. In every schedule both outputs (files and per-row verdicts) equal the sequential builds and the deep hash of everything reachable from the 95 package-level variables of the library is unchanged; every program is also built twice sequentially with the same fingerprint. Free-running pass: all programs on 16 goroutines under -race, from a cold process and warm (640 builds quick), outputs compared with sequential builds.",
+   text="12 programs (slices of the eight C11 extension tables, C10 statement bodies, an API-coverage program, a mixed program). Quick: 5-row programs, 36 ordered pairs (self, successor, mixed), every schedule with <=1 preemption: 40k schedules, 86M scheduling points. Thorough: 20 programs, all ordered pairs with <=1 preemption and all unordered pairs of 2-row programs with <=2 preemptions. In every schedule both outputs (files and per-row verdicts) equal the sequential builds and the deep hash of everything reachable from the 95 package-level variables of the library is unchanged; every program is also built twice sequentially from a cold process and no build, the first included, may change the fingerprint. Evidence lists the exported entry points no program reaches. Free-running pass: all programs on 16 goroutines under -race, from a cold process and warm (640 builds quick), outputs compared with sequential builds.",
    note="Trusted: interference needs state reachable from a package-level variable of the library (the list and the scheduling points are generated from /repo's syntax on every run); Go memory-model effects below function granularity are left to the race detector pass, which samples schedules.",
    design="§4 C18"),
  "C20": dict(
    category="model_checking",
    technique="explicit-state breadth-first search over the states of a pure reference model of the cache, every transition (shortest history + one operation) replayed on the real cache.Impl and compared step by step; exhaustive fault enumeration on saved cache files with recover-and-compare; stateless preemption-bounded exploration of caller/fingerprint-change interleavings under a cooperative scheduler; free-running race-detector pass",
-   text="Alphabet {prepare(a|b), find(a|b), bump(a|b), remove-export(a), find(a) with failing / malformed listing, save+load into a fresh cache}; a imports b and an unfingerprinted standard package; versions capped at 3 (thorough 4): 3.9k model states, 35k transitions, depth 11, every transition replayed on the implementation (data served, error, listing count, saved file parsed by an independent parser of the documented format). The listing command is answered through a process seam of the build overlay by the same stub that is also installed as `go` on PATH; 1% of the histories are run both ways and must agree. Cache-file faults: for two saved caches (one with a 12-dependency entry) every truncation offset, every deleted/duplicated/swapped line, every tab replaced, garbage: Load fails iff the independent parser rejects, and no probe (find(p); bump(dep),find(p) for every dependency) returns data that is not current. Schedules: 5 scenarios (2 callers + a fingerprint-changing thread), scheduling points at every function of the cache package and every fingerprint call, all schedules with <=3 preemptions (thorough 4).",
+   text="Alphabet {prepare(a|b), prepare(a,b) in one listing, find(a|b), bump(a|b|d), remove-export(a), find(a) with failing / malformed listing, save+load into a fresh cache}; a imports b, b imports d, both import an unfingerprinted standard package; versions capped at 2 (thorough 3): 1.6k model states, 16k transitions, every transition replayed on the implementation (data served, error, listing count, saved file parsed by an independent parser of the documented format). The listing command is answered through a process seam of the build overlay by the same stub that is also installed as `go` on PATH; 1% of the histories are run both ways and must agree. Cache-file faults: for two saved caches (one with a 12-dependency entry) every truncation offset, every deleted/duplicated/swapped line, every tab replaced, garbage: Load fails iff the independent parser rejects, and no probe (find(p); bump(dep),find(p) for every dependency) returns data that is not current. Schedules: 5 scenarios (2 callers + a fingerprint-changing thread), scheduling points at every function of the cache package and every fingerprint call, all schedules with <=3 preemptions (thorough 4).",
    note="Trusted: the stub's model of `go list -export` (content-addressed export files), the scripted fingerprint function, the canonical state (versions, entries with file existence, saved file, dirty flag).",
    design="§4 C20"),
 }
